@@ -315,17 +315,75 @@ def all_ports(t):
         if p['sub'] is not None:
             yield from all_ports(p['sub'])
 
+def canonical(t, ids, rel):
+    """the port `ids` is reached with every name on the way spelled the way the walk spells it
+    (pc.expand: indices 0..N-1 without leading zeros) and rel ends with the port's name"""
+    rests = {rel}
+    for k, i in enumerate(ids):
+        p = t[i]
+        r = pc._raw_segs(p)
+        if r is None:
+            return False
+        rests = {x[len(a):] for x in rests for a in pc.expand(r[0]) if x.startswith(a)}
+        if not rests:
+            return False
+        if k + 1 < len(ids):
+            t = p['sub']
+    return b"" in rests
+
+def finding_answer(t, rel):
+    """the port the known finding lookup-leading-zero-alias predicts for a relative address:
+    apropos takes, level by level, the FIRST port in table order that spells the address (C05's
+    reading, leading zeros accepted: pc.spells) - first among the names holding a '/', going
+    down when the address continues and the port has sub-ports, then among all names for what is
+    left - and never comes back to a later sibling.  -> ids, or None (NULL: the descent dead-ends)"""
+    ids = ()
+    while True:
+        down = None
+        for i, p in enumerate(t):
+            r = pc._raw_segs(p)
+            if r is None or b"/" not in p['name']:
+                continue
+            rests = pc.spells(r[0], rel)
+            if rests:
+                down = (i, p, min(rests, key=len))
+                break
+        if down is not None:
+            i, p, rest = down
+            if p['sub'] is not None and rest:
+                t, rel, ids = p['sub'], rest, ids + (i,)
+                continue
+            return ids + (i,)
+        for i, p in enumerate(t):
+            r = pc._raw_segs(p)
+            if r is not None and rel and b"" in pc.spells(r[0], rel):
+                return ids + (i,)
+        return None
+
+def port_at(t, ids):
+    p = None
+    for i in ids:
+        p = t[i]
+        t = p['sub']
+    return p
+
 def search_candidates(t, loc):
     """the Spec's reading of a location (structural descent, pc.addressed): the tables whose
     children the search must return, or None when the text demands nothing (the location
     names no port, names a leaf, or a table on the way is outside the quantifier).
-    -> (list of child tables, alias)"""
+    When several ports spell the location (a#4b/ and a01b/ for /a01b/: an index with a leading
+    zero, C05) the RIGHT one is the port the walk reports that address for (`canonical`); the
+    others are what the known finding may answer with, never accepted here.
+    -> (list of child tables, alias, [(ids, port)] of the other ports spelling the location)"""
     if loc in (b"", b"/"):
-        return ([t], False)
-    hits = pc.addressed(t, loc[1:] if loc[:1] == b"/" else loc)
+        return ([t], False, [])
+    rel = loc[1:] if loc[:1] == b"/" else loc
+    hits = pc.addressed(t, rel)
     if not hits or any(p['sub'] is None or not ok for _, p, ok, _ in hits):
         return None
-    return ([p['sub'] for _, p, _, _ in hits], any(al for _, _, _, al in hits))
+    right = [h for h in hits if canonical(t, h[0], rel)] or hits
+    return ([p['sub'] for _, p, _, _ in right], any(al for _, _, _, al in hits),
+            [(ids, p) for ids, p, _, _ in hits if all(ids != h[0] for h in right)])
 
 def lookup_failures(case, impl):
     """[(address, got, want, alias)] for the walked addresses of tables inside the text's proviso"""
@@ -344,9 +402,11 @@ def lookup_failures(case, impl):
         if a in want and g != want[a]:
             named = {pc.show_id(ids): al for ids, _, _, al in pc.addressed(t, a[1:])}
             # alias: the wanted port lies behind a level where two digit-facing siblings both spell the
-            # beginning of the address, and the answer is one of the ports the address names, or NULL
-            # (the lookup went down the other sibling and found nothing there)
-            out.append((a, g, want[a], bool(named.get(want[a])) and (g == "-" or bool(named.get(g)))))
+            # beginning of the address, and the answer is exactly the one the finding predicts: the port
+            # (or NULL) the first-match descent of finding_answer ends at - /a01b/x -> NULL only if a#4b/
+            # has no x, /a01b/ itself -> port a#4b/, never NULL
+            fa = finding_answer(t, a[1:])
+            out.append((a, g, want[a], bool(named.get(want[a])) and g == ("-" if fa is None else pc.show_id(fa))))
     return out
 
 # ------------------------------------------------------------------------------------
@@ -482,9 +542,30 @@ def classify(case, impl, failure):
         if fl and all(x[3] for x in fl):
             return "lookup-leading-zero-alias"
     if failure.startswith("search-") and failure[7:8] in "012" and "returned" in failure:
-        c = search_candidates(pc.dec_tree(f[1]), unhx(f[2]))
-        if c is not None and c[1]:
-            return "lookup-leading-zero-alias"
+        # the search half of the finding: the location is resolved by the first-match descent of
+        # apropos (finding_answer).  It ends at the OTHER aliased sub-tree (/a01b/ with a#4b/ in
+        # front of a01b/): the reply is exactly that table's child set; or it dead-ends inside the
+        # other sub-tree (/a01/c/ with a#4/ -> {x}): NULL, the reply is empty.  Anything else - an
+        # empty reply where the other table has matching children, a reply from a third table, a
+        # wrong order - stays a violation.
+        t, loc, needle, opt = pc.dec_tree(f[1]), unhx(f[2]), unhx(f[3]), int(f[4])
+        c = search_candidates(t, loc)
+        if c is None or not c[1]:
+            return None
+        try:
+            got = parse_entries(dict(x.split("=", 1) for x in impl.split(" "))["e"])
+        except Exception:
+            return None
+        flat = [(e[0], e[1], e[2] if e[1] else None) for e in got]
+        fa = finding_answer(t, loc[1:] if loc[:1] == b"/" else loc)
+        if fa is None:
+            return "lookup-leading-zero-alias" if not flat else None
+        if any(ids == fa for ids, _ in c[2]):
+            tab = port_at(t, fa)['sub']
+            if tab is not None and not any(not p['name'] for p in tab):
+                w = spec_search(tab, needle, opt)
+                if (flat if opt == 0 else canon_entries(flat)) == (w if opt == 0 else canon_entries(w)):
+                    return "lookup-leading-zero-alias"
     return None
 
 TECHNIQUE = ("Coq proofs (induction over the component list; invariants of the backward cursor pass; sortedness and "
